@@ -1822,6 +1822,11 @@ func (p *Parser) evaluateFor(ctx context) (Statement, error) {
 				return nil, err
 			}
 			valueVarName = nextToken.Value()
+
+			// Index and value variable must not share a name.
+			if valueVarName == indexVarName {
+				return nil, p.atError(fmt.Sprintf("variable %s has already been defined", valueVarName), nextToken)
+			}
 		}
 		nextToken = p.eat()
 		hasNamedVar := len(valueVarName) > 0
